@@ -104,6 +104,34 @@ Print Assumptions C03_rdy_range.
 Example C03_witness_rdy_wrap : rdy_param 2500 [49;56;52;52;54;55;52;52;48;55;51;55;48;57;53;53;49;54;49;55] = RdyInvalid.
 Proof. vm_compute. reflexivity. Qed.
 
+(* Schedules (F23): the consumer's in-flight count against the channel's in-flight set, step by
+   step - deliveries (insert | count+1), FIN / REQ / timeouts (pop | count-1 if it popped) and
+   Channel.Empty (take the set | count-1 per message taken), ANY number of them under ANY
+   schedule: the count differs from the size of the set by exactly what the threads in progress
+   still owe, and is the size of the set when they have finished.  The rule - whoever removes a
+   message from the set takes it off the count, and only after the removal succeeded - is read
+   off the CURRENT source; the zeroing Empty of the source before 72b06c9 is refuted (former
+   known findings K1, K2). *)
+From NSQV Require model.Counter proofs.CounterProofs proofs.CounterSrc.
+Theorem C03_count_exact_every_schedule : forall ts sched,
+  forallb Counter.fresh ts = true -> forallb Counter.no_zeroing ts = true ->
+  let x := Counter.run (Counter.init ts) sched in
+  (Counter.count x + CounterProofs.debt (Counter.threads x) = Z.of_nat (length (Counter.inflight x)))%Z /\
+  (forallb Counter.finished (Counter.threads x) = true -> Counter.count x = Z.of_nat (length (Counter.inflight x))).
+Proof. exact CounterProofs.count_exact_every_schedule. Qed.
+Print Assumptions C03_count_exact_every_schedule.
+
+Theorem C03_count_rule_in_the_source : CounterSrc.src_count_rule.
+Proof. exact CounterSrc.src_count_rule_holds. Qed.
+Print Assumptions C03_count_rule_in_the_source.
+
+Theorem C03_zeroing_empty_refuted :
+  exists ts sched, forallb Counter.fresh ts = true /\
+    let x := Counter.run (Counter.init ts) sched in
+    forallb Counter.finished (Counter.threads x) = true /\ Counter.count x <> Z.of_nat (length (Counter.inflight x)).
+Proof. exact CounterProofs.zeroing_empty_refuted. Qed.
+Print Assumptions C03_zeroing_empty_refuted.
+
 (* The model is tied to the CURRENT source: the order-of-effects facts about nsqd's core
    functions that the model assumes (proofs/CoreSrcDefs.v) hold of the statement skeletons
    regenerated from /repo on this run (gen/CoreShape.v). *)
